@@ -104,6 +104,20 @@ class C04ResultModels:
         ex.assumed.add("model: dataclass construction (explicit keywords + snapshot of the **mapping, defaults otherwise)")
         return RecV(TStruct(cv.qualname, {}), {"__explicit__": vals, "__extra__": snap, **vals})
 
+    def make_dict(self, ex, keys, vals):
+        """A dict display with string keys and values that are None or opaque values: a dict of str -> Val (additional result fields)."""
+        if not _on(ex) or any(k is None for k in keys):
+            return NotImplemented
+        from .values import TVal
+
+        st = ex.st
+        if all(isinstance(k, str) or (isinstance(k, SV) and k.ty == TStr) for k in keys) and all(v is None or (isinstance(v, SV) and v.ty == TVal) for v in vals):
+            o = DictObj.empty(st, TStr, TVal, ordered=True)
+            for k, v in zip(keys, vals):
+                o.set(st, TStr.embed(st, k), TVal.embed(st, v))
+            return st.alloc(o)
+        return NotImplemented
+
     # ------------------------------------------------------------------ nested single-expression functions
     def nested_function(self, ex, node):
         if not _on(ex):
@@ -154,7 +168,25 @@ class C04NumpyModels:
                 j = z3.Int("j!ax1")
                 ex.assumed.add("model: numpy.any(m, axis=1) of a rank-2 boolean array (row-wise disjunction)")
                 return _NP.new(ex, "b", (A.shape[0],), _NP.lam(1, lambda i: z3.Exists([j], z3.And(0 <= j, j < A.shape[1], A.at(i, j)))))
+        if fn == "all" and len(args) == 1 and not kwargs and _is_arr(ex, args[0]):
+            A = _arr(ex, args[0])
+            if A.rank == 1 and A.kind == "b":
+                return self._all_rank1(ex, A)
         return NotImplemented
+
+    def _all_rank1(self, ex, A):
+        """numpy.all(v) of a rank-1 boolean array: forall i in range: v[i] - beta-reduced, and triggered by the first read `a[.. i ..]` of an
+        integer index list in its body (so that e-matching, not model-based instantiation, finds the instances)."""
+        i = z3.Int("i!all")
+        body = z3.simplify(A.elems[i])
+        rng = z3.And(0 <= i, i < A.shape[0])
+        pat = _index_read(body, i)
+        if pat is not None:
+            try:
+                return SV(z3.ForAll([i], z3.Implies(rng, body), patterns=[pat]), TBool)
+            except z3.Z3Exception:
+                pass
+        return SV(z3.ForAll([i], z3.Implies(rng, body)), TBool)
 
     def havoc_obj(self, ex, ref, o, hint):
         if not _on(ex) or not isinstance(o, ArrObj):
@@ -214,3 +246,34 @@ class C04SubscriptModels:
         if not _on(ex) or not _is_arr(ex, cont):
             return NotImplemented
         return _CNP.setitem(ex, cont, key, v, lineno)
+
+
+def _index_read(body, i):
+    """First sub-term `a[e]` of `body` with `a` an uninterpreted Int -> Int array constant and `e` mentioning the bound constant i (None if there is none)."""
+    stack, seen = [body], set()
+    while stack:
+        t = stack.pop()
+        if t.get_id() in seen:
+            continue
+        seen.add(t.get_id())
+        if z3.is_quantifier(t):
+            stack.append(t.body())
+            continue
+        if z3.is_app(t):
+            if t.decl().kind() == z3.Z3_OP_SELECT and t.num_args() == 2 and z3.is_const(t.arg(0)) and t.arg(0).decl().kind() == z3.Z3_OP_UNINTERPRETED \
+                    and t.sort() == z3.IntSort() and _mentions(t.arg(1), i) and _no_ite(t.arg(1)):
+                return t
+            stack.extend(t.children())
+    return None
+
+
+def _mentions(t, i):
+    if t.eq(i):
+        return True
+    return any(_mentions(c, i) for c in t.children())
+
+
+def _no_ite(t):
+    if z3.is_app(t) and t.decl().kind() == z3.Z3_OP_ITE:
+        return False
+    return all(_no_ite(c) for c in t.children())
